@@ -34,6 +34,10 @@ func genTree(r *rand.Rand, depth int, cnt *int, parent *drive.Cmd, name string, 
 		t.Prog.Spec = ""
 		t.Prog.AST = nil
 	}
+	if depth > 0 && r.Intn(6) == 0 {
+		// a "command group": declares nothing of its own, only there to be traversed
+		t.Prog = &Prog{}
+	}
 	if typed {
 		for _, o := range t.Prog.Opts {
 			if !o.Flag && r.Intn(2) == 0 {
@@ -97,6 +101,10 @@ func treeInvocation(r *rand.Rand, root *drive.Cmd, version bool, mutateP int) (a
 			seg = gen.Mutate(r, gen.Sentence(r, lp, gen.Cfg{}))
 		} else {
 			seg = gen.Sentence(r, lp, gen.Cfg{})
+		}
+		if len(lp.Opts)+len(lp.Args) == 0 && mutateP > 0 && r.Intn(3) == 0 {
+			// a level that declares nothing: any token of its own is a stray one
+			seg = []string{[]string{"oops", "-x", "--oops", "-", "--oops=1", "0"}[r.Intn(6)]}
 		}
 		if r.Intn(4) == 0 && len(seg) > 0 {
 			// a value or positional spelled like a command that is NOT a subcommand of this level (an ancestor's
@@ -657,6 +665,12 @@ func runC07(c *core.Ctx) {
 	app := &drive.App{Root: root, Policy: policy, Builtin: typed, Version: version}
 	randomPolicies(c.R, app) // some commands set their own policy; sometimes the app's is assigned after the declarations
 	d.Note, d.Expect = "", kind
+	if typed && c.R.Intn(3) == 0 {
+		// the integer variables are user-defined value types: the conversion error comes from the user's Set
+		app.CustomInt = true
+		d.Note = "integer variables declared as user-defined value types (VarOpt / VarArg)"
+		c.Inc("typed_with_user_defined_values")
+	}
 	if kind == "REJECT" {
 		policy = app.PolicyAt(node)
 		d.Policy = fmt.Sprintf("%s at the rejecting command (application: %s, assigned late: %v)", policyName(policy), policyName(app.Policy), app.PolicyLate)
